@@ -80,7 +80,7 @@ pub fn run(ctx: &Ctx, ev: &mut Ev) {
                 if !th && len > 40 && (pos * 7 + len) % 3 != 0 { continue; }
                 for (k, u) in [0x00E9u16, 0x4E00, 0xD83D, 0xDC00].iter().enumerate() {
                     let mut units: Vec<u16> = (0..len).map(|i| 0x61 + (i % 26) as u16).collect();
-                    if len > 0 { units[pos] = *u; if *u == 0xD83D && pos + 1 < len && (pos + len) % 2 == 0 { units[pos + 1] = 0xDCA9; } }
+                    if len > 0 { units[pos] = *u; if *u == 0xD83D && pos + 1 < len && (pos + len) % 2 == 0 { units[pos + 1] = 0xDCA9; if pos + 2 < len && (pos + len) % 4 == 0 { units[pos + 2] = [0xDC00u16, 0xD800][(pos / 2) % 2]; } } }
                     let src = Src { bytes: vec![], units };
                     let need: usize = String::from_utf16_lossy(&src.units).len();
                     for f in [Utf16ToUtf8Partial, Utf16ToStrPartial, Utf16ToUtf8, Utf16ToStr, CopyBasicLatinToAscii, EnsureUtf16Validity] {
